@@ -6,10 +6,13 @@
 (*   minus, and  d - keys, d & keys              (d a dictattr, Dict or a subclass of either)  *)
 (*   select, multiget   d[[k1, ...]], d[k1, ...]                                               *)
 (*   plus, or    d + other, d | other                                                          *)
-(*   relabel     d.relabel(...) in several spellings of one renaming                           *)
+(*   relabel     d.relabel(...): a blanket rule (none / prefix / suffix / dict or callable)     *)
+(*               and individual keyword relabels in one call                                   *)
 (*   attr        d.k beside d[k]                                                               *)
-(*   call        Dict called with keyword definitions synthesised from a dependency graph,  *)
-(*               in one particular keyword order                                               *)
+(*   call        Dict called with keyword definitions synthesised from a dependency graph   *)
+(*               (par = parameter names, kin = their kinds: with / without a default,        *)
+(*               keyword-only; star = *args / **kwargs declared; shape = function, object  *)
+(*               with __call__, functools.partial), in one keyword order                      *)
 (* A mapping is logged as [cls, items] with items the sequence of [key, value] in dict order.  *)
 (* Verdict(o) = "" or the name of the first clause the observation breaks; results are judged  *)
 (* before operands.                                                                            *)
@@ -75,10 +78,10 @@ Verdict(o) ==
             ELSE IF o.o_after # other THEN "other_modified"
             ELSE IF o.d_after # d THEN "d_modified" ELSE ""
       [] o.op = "relabel" ->
-            LET d == o.d.items IN
-            IF ~IsMapping(d) \/ Collides(d, o.ren) THEN "bad_input"
+            LET d == o.d.items  ren == Renaming(d, o.blanket, o.indiv) IN
+            IF ~IsMapping(d) \/ o.blanket[1] \notin {"none", "prefix", "suffix", "map"} \/ Collides(d, ren) THEN "bad_input"
             ELSE IF ~IsMap(o.out) THEN "relabel_raised"
-            ELSE IF ~SameMap(o.out.items, Relabel(d, o.ren)) THEN "relabel_keys_values"
+            ELSE IF ~SameMap(o.out.items, Relabel(d, ren)) THEN "relabel_keys_values"
             ELSE IF o.out.cls # o.d.cls THEN "class_not_preserved"
             ELSE IF ~o.out.is_new THEN "not_a_new_mapping"
             ELSE IF o.d_after # d THEN "d_modified" ELSE ""
@@ -91,7 +94,8 @@ Verdict(o) ==
                  ELSE (IF o.item.kind = "exc" /\ o.attr.kind = "exc" THEN (IF o.d_after # d THEN "d_modified" ELSE "") ELSE "attr_mirrors_item")
       [] o.op = "call" ->
             LET b2 == Override(o.base, o.plain) IN
-            IF ~(NoSelfLoops(o.par) /\ Grounded(o.par, b2) /\ DOMAIN o.par \cap DOMAIN o.plain = {}
+            IF ~(WellFormed(o.par, o.kin, o.star, o.shape) /\ NoSelfLoops(o.par) /\ Grounded(o.par, o.kin, b2) /\ NoHiddenKey(o.par, b2)
+                 /\ DOMAIN o.par \cap DOMAIN o.plain = {}
                  /\ ElemsOf(o.order) = DOMAIN o.par \cup DOMAIN o.plain /\ Len(o.order) = Cardinality(ElemsOf(o.order))) THEN "bad_input"
             ELSE LET law == Outcome(o.par, b2) IN
                  IF law[1] = "exc"
